@@ -63,7 +63,11 @@ def seen_default_later(case, name):
 
 
 def strategy(ctx):
-    return st.one_of(gen_ir.interface("signature", suffix=True), gen_ir.interface("signature", suffix=True, min_params=2, max_params=5)).map(_no_code_defaults).filter(
+    return st.one_of(
+        gen_ir.interface("signature", suffix=True),
+        gen_ir.interface("signature", suffix=True, min_params=2, max_params=5),
+        gen_ir.interface("signature", suffix=True, doc=gen_ir.mixed_descr, name_strategy=gen_ir.rich_names),
+    ).map(_no_code_defaults).filter(
         lambda c: not any(k == "dotted" and "default" in p for (_n, p), k in zip(c["params"], c["kinds"]))
     )
 
